@@ -9,7 +9,7 @@ RULE = ('seeded scenarios (rule set + flex configuration incl. %array/%pointer, 
         'checked event by event against the byte-stream reference model; distinct = distinct event-log hash, non-trivial = run with >= 2 '
         'tokens and >= 1 executed edit op')
 TIERS = {
-    'quick': {'scenarios': 48, 'plans': 120, 'wall_cap': 600},
+    'quick': {'scenarios': 80, 'plans': 200, 'wall_cap': 600},
     'thorough': {'scenarios': 5000, 'plans': 300, 'wall_cap': 3300},
 }
 COMPONENTS = sb.COMPONENTS
@@ -26,7 +26,7 @@ class P(sb.StreamProp):
     CLASSES = {'token', 'less', 'input', 'more', 'stream', 'phantom', 'fatal', 'hang'}
 
     def gen_scenario(self, rng):
-        return scenario.gen_scenario(rng, forbid=('vtrail',), want={'flavors': ['nr', 'nr', 'r', 'r', 'c99', 'cxx']})
+        return scenario.gen_scenario(rng, forbid=('vtrail',), want={'flavors': ['nr', 'nr', 'r', 'r', 'c99', 'c99', 'cxx', 'cxx']})
 
     def gen_plan(self, rng, sc):
         return workload.gen_stream_plan(rng, sc, density=rng.choice([0.1, 0.3, 0.6]),
